@@ -38,6 +38,22 @@ CHECKS = {
             'batch is open, (ii) have announced what a rejected update applied, (iii) answer a fixed probe exactly like a freshly built twin.',
             'exhaustive fault enumeration (positions x programs) with a differential probe against a fresh twin',
             BASE_NOTE),
+    'C06': ('model_checking', 'DESIGN.md §3 C06',
+            'Every hierarchy (single class, chains of 2 and 3, diamond, helper-method overrides, function form) x every declaration of the '
+            'dependent method at every level (absent / plain override / watch / on_init / queued over 7 dependency sets incl. slot specs and helper '
+            'methods) is built as a real class; every program up to the length bound (sets, same-value sets, update, batches, slot assignment, '
+            'update inside a batch) is run on a fresh instance and the invocation count after each step compared with an MRO-based resolver; '
+            'method_dependencies() must agree with the resolver.',
+            'exhaustive enumeration of class hierarchies x operation programs on the real code vs. an independent MRO-based resolver',
+            BASE_NOTE),
+    'C07': ('model_checking', 'DESIGN.md §3 C07',
+            'For every single dependency path (a.x, a.y, a.b.x, a.b.y, a.param, x, c.y) and every path combined with an own parameter, BFS over '
+            'attach / replace / detach at both levels and leaf assignments on attached and detached objects (incl. falsy container-like objects); '
+            'after every step the invocation count must match an object-graph model that uses only the values reached through the declared paths, and no '
+            'object off the current paths may carry a watcher for the parent. Dependency sets with two paths through sub-objects are executed as '
+            'pinned scenarios (known findings).',
+            'explicit-state BFS over operation histories of real object graphs vs. an object-graph reference model',
+            BASE_NOTE),
     'C15': ('exploration', 'DESIGN.md §3 C15',
             'For 18 serializable parameter types a boundary-rich value list (extreme ints/floats, -0.0, escape-laden and non-ASCII strings, empty '
             'containers, microseconds, years 1/999/9999, date-only and datetime ranges, None) x class/instance level x {all, subset=, '
